@@ -42,6 +42,8 @@ var corpus = []string{
 	`\w+=\w+`, `[a-z]+://[a-z]+`, `\w+\s*=\s*\w+`, `\w+::\w+`, `[A-Za-z]+, [A-Za-z]+`,
 	`^(if|for|while)\b`, `^(https?|ftp)://`, `^(yes|no|maybe)$`, `^(\d+|[a-f]+)x`, `^(alpha|beta|gamma|delta)-`,
 	`^/api/.*\.json$`, `^GET .* HTTP$`, `^begin.*end$`, `^<.*>$`, `^\[.*\]$`,
+	// word boundaries on the lazy-DFA strategies (most \b patterns are routed to the NFA)
+	`\berror\b.*`, `x\b.y`, `a.{0,5}b\b`, `[^,]*,\b`, `\d+\b`, `[ab]*a[ab]{15}\b`, `(?i)\bwarn\w*:.*`, `.*\bfoo\b`, `\d{2}:\d{2}\b`,
 	// state blow-up (many reachable DFA states on inputs over the pattern's own alphabet)
 	`a[ab]{12}[cd]`, `[cd][ab]{10}a[ab]*x`, `ab[ab]{20}c`, `(a|b)*a(a|b){9}`, `[01]*1[01]{11}`,
 }
@@ -250,6 +252,10 @@ func genHaystack(r *rng, p string, re *syntax.Regexp, alpha []string, class int)
 	}
 	if r.p(1, 3) {
 		alpha = patternOnlyAlphabet(alpha)
+	}
+	if class <= 2 && r.p(1, 8) {
+		// noise only: calls that must answer "no match" are where a spurious match shows
+		return genNoise(r, alpha, r.n(maxNoise*2+1))
 	}
 	var out []byte
 	for i := 0; i < pieces; i++ {
